@@ -79,4 +79,8 @@ int vm_execute(vm * machine, program * prog, object * result);
 void vm_print_stack_trace(vm * machine);
 void vm_print(vm * machine, const char * msg);
 
+#ifdef NEVER_VERIF
+extern void (*never_verif_step_hook)(vm * machine, bytecode * code);
+#endif
+
 #endif /* __VM_H__ */
